@@ -50,6 +50,8 @@ def fmt_case(c):
     for k in ("nb", "self", "ign", "gt", "twice", "nobar"):
         if c.get(k):
             t.append("%s=%d" % (k, c[k]))
+    if c.get("cm"):
+        t.append("cm=" + ",".join(map(str, c["cm"])))
     if c.get("nb"):
         for p, h in enumerate(c.get("hints") or []):
             if h:
@@ -70,7 +72,7 @@ def parse_case(line):
     for _ in range(P):
         m = int(t[i]); i += 1
         D.append([int(x) for x in t[i:i + m]]); i += m
-    c = dict(P=P, fixed=fixed, num=num, seed=seed, I=I, D=D, forget=[], hints=[[] for _ in range(P)], grow=[], **{"del": dl})
+    c = dict(P=P, fixed=fixed, num=num, seed=seed, I=I, D=D, forget=[], hints=[[] for _ in range(P)], grow=[], cm=[], **{"del": dl})
     c.update(OPT_DEFAULT)
     if i < len(t) and "=" not in t[i]:
         nf = int(t[i]); i += 1
@@ -79,6 +81,8 @@ def parse_case(line):
         k, v = tok.split("=", 1)
         if k in OPT_DEFAULT:
             c[k] = int(v)
+        elif k == "cm":
+            c["cm"] = [int(x) for x in v.split(",") if x]
         elif k[0] == "h":
             c["hints"][int(k[1:])] = [int(x) for x in v.split(",") if x]
         elif k == "grow":
@@ -231,8 +235,24 @@ def gen_one(rng, NP, force=None):
     fixed = force.get("fixed", rng.choice([0, 1]))
     dl = force.get("del", rng.choice(["M", "M", "m"]) if rng.random() < .18 else "F")
     seed = 0 if rng.random() < .2 else rng.randrange(1, 1 << 30)
-    c = dict(P=P, fixed=fixed, num=num, seed=seed, I=I, D=D, forget=[], hints=[[] for _ in range(P)], grow=[], **{"del": dl})
+    c = dict(P=P, fixed=fixed, num=num, seed=seed, I=I, D=D, forget=[], hints=[[] for _ in range(P)], grow=[], cm=[], **{"del": dl})
     c.update(OPT_DEFAULT)
+    # ---- the communicator: MPI_COMM_WORLD's first P ranks in order, or a split communicator whose rank numbering differs from the
+    #      world's (communicator rank i = world rank cm[i]): subset, reversed, rotated, shuffled subset.  All rank numbers of the case
+    #      (neighbours, hints, forget, grow, dumps, model) are communicator ranks.
+    if force.get("cm", rng.random() < .45):
+        kind = rng.choice(["reversed", "rotated", "subset", "subset-reversed", "shuffled"])
+        if kind == "reversed":
+            c["cm"] = list(range(P - 1, -1, -1)) if (P > 1 or NP == 1) else [NP - 1]
+        elif kind == "rotated":
+            k = rng.randrange(1, NP); c["cm"] = [(i + k) % NP for i in range(P)]
+        else:
+            w = sorted(rng.sample(range(NP), P))
+            if kind == "subset-reversed": w.reverse()
+            if kind == "shuffled": rng.shuffle(w)
+            c["cm"] = w
+        if c["cm"] == list(range(P)):
+            c["cm"] = [(i + 1) % NP for i in range(P)] if NP > 1 else []
     # ---- how the remote indices are built: ring / neighbour hints (constructor argument or setNeighbours), includeSelf, ignorePublic
     c["ign"] = force.get("ign", 1 if rng.random() < .15 else 0)
     c["self"] = force.get("self", 1 if rng.random() < .15 else 0)
@@ -293,7 +313,7 @@ def is_noobs(l):
     return l.startswith("CRASH") or l.startswith("HANG") or l.startswith("NOT-RUN") or l.startswith("BADCASE") or "C13-HANG" in l
 
 
-def run_impl(ctx, exe, np, cases, tag, case_timeout=30, env_extra=None, max_bad=40):
+def run_impl(ctx, exe, np, cases, tag, case_timeout=30, env_extra=None, max_bad=12):
     out, bad, i = [], 0, 0
     chunk = 300
     while i < len(cases):
@@ -462,7 +482,7 @@ def run(ctx):
     for n in range(N):
         cases.append(gen_one(rng, NP))
     # small exhaustive-ish scope: 2 and 3 ranks, every deletion subset of a fixed 3-rank decomposition with third-party knowledge
-    base = dict(P=3, fixed=1, num=1, seed=0, forget=[], hints=[[], [], []], grow=[], nb=0, self=0, ign=0, gt=0, twice=0, nobar=0, I=[[(1, 1, 1, 0), (2, 2, 1, 1), (4, 3, 1, 2)], [(1, 2, 1, 1), (2, 1, 1, 0), (3, 1, 1, 2)],
+    base = dict(P=3, fixed=1, num=1, seed=0, forget=[], hints=[[], [], []], grow=[], cm=[], nb=0, self=0, ign=0, gt=0, twice=0, nobar=0, I=[[(1, 1, 1, 0), (2, 2, 1, 1), (4, 3, 1, 2)], [(1, 2, 1, 1), (2, 1, 1, 0), (3, 1, 1, 2)],
                                                 [(1, 3, 1, 0), (2, 3, 1, 1), (3, 2, 1, 2), (4, 1, 1, 3)]], **{"del": "F"})
     copies = [(r, q[0]) for r in range(3) for q in base["I"][r] if q[1] != OWNER]
     for mask in range(1 << len(copies)):
@@ -554,7 +574,7 @@ def run(ctx):
 
     nviol = ncorr = 0
     dist = {"P": {}, "del": {}, "num": {}, "fixed": {}, "deleted_copies": {}, "forgotten_neighbour_pairs": {}, "neighbour_hints": {}, "includeSelf": {},
-            "ignorePublic": {}, "global_index_type": {}, "second_sync": {}, "second_sync_without_barrier": {}, "grown_pairs": {}, "large": {}, "restore_pre": {}, "new_entries": 0,
+            "ignorePublic": {}, "global_index_type": {}, "second_sync": {}, "second_sync_without_barrier": {}, "communicator": {}, "grown_pairs": {}, "large": {}, "restore_pre": {}, "new_entries": 0,
             "new_neighbours_discovered": 0}
     nontrivial = set()
     oi_bad = cnt_bad = 0
@@ -568,6 +588,7 @@ def run(ctx):
         for k, v in (("P", c["P"]), ("del", c["del"]), ("num", c["num"]), ("fixed", c["fixed"]), ("deleted_copies", min(9, sum(len(d) for d in c["D"]))),
                      ("forgotten_neighbour_pairs", len(c.get("forget") or [])), ("neighbour_hints", c["nb"]), ("includeSelf", c["self"]),
                      ("ignorePublic", c["ign"]), ("global_index_type", "long/N=100" if c["gt"] else "int/N=4"), ("second_sync", c["twice"]), ("second_sync_without_barrier", c["nobar"]),
+                     ("communicator", "world order" if not c["cm"] else ("split: same ranks, other order" if sorted(c["cm"]) == list(range(c["P"])) else "split: other world ranks")),
                      ("grown_pairs", len(c["grow"])), ("large", 1 if max(len(r) for r in c["I"]) > 50 else 0)):
             dist[k][str(v)] = dist[k].get(str(v), 0) + 1
         if sm:
@@ -625,7 +646,7 @@ def run(ctx):
                 "overlap/copy attributes, 5% non-public copies) x random deletion sets of non-owner copies x numberer {default, old numbers, 1000+g} x "
                 "useFixedOrder x deletion path {free functions, RemoteIndexListModifier<true>} x PMPI seed x rebuild mode {ring, neighbour hints via constructor / "
                 "setNeighbours, exact / superset / restricted} x includeSelf x ignorePublic x {int/chunk 4, long+2^40/chunk 100} x hand-grown pairs "
-                "(modifier insert(index, global)) x second sync (fresh / same syncer object) x 1.2% large sets (101/150 globals) "
+                "(modifier insert(index, global)) x communicator {world order, MPI_Comm_split subset / reversed / rotated / shuffled: communicator ranks != world ranks} x second sync (fresh / same syncer object) x 1.2% large sets (101/150 globals) "
                 "+ all 2^k deletion subsets of one 3-rank decomposition; "
                 "non-trivial = P>1 and at least one copy deleted; distinct = distinct case lines",
         "samples": [lines[i] for i in sel[:2]] + [lines[i] for i in sel[len(sel) // 2: len(sel) // 2 + 2]],
